@@ -183,6 +183,26 @@ func throughHelper(v ssa.Value) (ssa.Value, bool) {
 		}
 		site := helperCallSite(g)
 		if site == nil {
+			// several call sites and no context: fine when they all pass the very same value
+			sites := ht.sites[originFn(g)]
+			for i, prm := range g.Params {
+				if prm != x || len(sites) == 0 {
+					continue
+				}
+				var common ssa.Value
+				for _, s := range sites {
+					if i >= len(s.Common().Args) {
+						return nil, false
+					}
+					a := s.Common().Args[i]
+					if common == nil {
+						common = a
+					} else if !plainSame(common, a) {
+						return nil, false
+					}
+				}
+				return common, common != nil
+			}
 			return nil, false
 		}
 		for i, prm := range g.Params {
@@ -394,4 +414,86 @@ func blockIn(f *ssa.Function, in ssa.Instruction) *ssa.BasicBlock {
 		b, g = site.Block(), site.Parent()
 	}
 	return b
+}
+
+// plainSame: the two values are the same SSA value or loads of the same variable cell.
+func plainSame(a, b ssa.Value) bool {
+	if a == b {
+		return true
+	}
+	ua, ok1 := a.(*ssa.UnOp)
+	ub, ok2 := b.(*ssa.UnOp)
+	if ok1 && ok2 && ua.X == ub.X {
+		return true
+	}
+	// the same captured variable seen from two closures of one function
+	fa, okA := a.(*ssa.UnOp)
+	fb, okB := b.(*ssa.UnOp)
+	if okA && okB {
+		if va, isA := fa.X.(*ssa.FreeVar); isA {
+			if vb, isB := fb.X.(*ssa.FreeVar); isB {
+				ba, bb := freeVarBinding(va), freeVarBinding(vb)
+				return ba != nil && ba == bb
+			}
+		}
+		if va, isA := fa.X.(*ssa.FreeVar); isA {
+			if ba := freeVarBinding(va); ba != nil && ba == fb.X {
+				return true
+			}
+		}
+		if vb, isB := fb.X.(*ssa.FreeVar); isB {
+			if bb := freeVarBinding(vb); bb != nil && bb == fa.X {
+				return true
+			}
+		}
+	}
+	return false
+}
+
+// expandReturns lists the return statements that decide f's results: f's own, except that a
+// return which merely forwards all results of a call to a transparent helper is replaced by the
+// helper's returns (the helper's parameters then resolve through that call).
+func expandReturns(f *ssa.Function) []*ssa.Return {
+	var out []*ssa.Return
+	var walk func(g *ssa.Function, depth int)
+	walk = func(g *ssa.Function, depth int) {
+		for _, ret := range plainReturnsOf(g) {
+			var fwd *ssa.Call
+			all := len(ret.Results) > 0
+			for i, res := range ret.Results {
+				var c *ssa.Call
+				switch x := res.(type) {
+				case *ssa.Extract:
+					if cc, ok := x.Tuple.(*ssa.Call); ok && x.Index == i {
+						c = cc
+					}
+				case *ssa.Call:
+					if len(ret.Results) == 1 {
+						c = x
+					}
+				}
+				if c == nil || (fwd != nil && fwd != c) {
+					all = false
+					break
+				}
+				fwd = c
+			}
+			// only a direct `return h(...)`: the call sits in the block of the return itself (a
+			// result that is tested first and then returned is not a mere forward)
+			if all && fwd != nil && fwd.Block() != ret.Block() {
+				all = false
+			}
+			if all && fwd != nil && depth < 3 {
+				// (only helpers with one call site: the returns of a shared helper mean something
+				// different at each of its call sites)
+				if h := rawStaticCallee(fwd); h != nil && isHelper(h) && len(ht.sites[originFn(h)]) == 1 {
+					walk(originFn(h), depth+1)
+					continue
+				}
+			}
+			out = append(out, ret)
+		}
+	}
+	walk(f, 0)
+	return out
 }
